@@ -42,6 +42,9 @@ pub enum Op {
     NotifyBurst(usize),
     /// the source drops its EventSender: no event will ever arrive again
     DropSender,
+    /// rewrite a Look so that its next reload loads several hundred assets that are not cached yet (each registers itself
+    /// with the reloader from the reloader's own thread), and notify it
+    EditLookBig(usize, usize),
 }
 #[derive(Clone, Debug, Serialize, Deserialize)]
 pub struct Work {
@@ -108,7 +111,7 @@ impl Property for C08 {
             .collect();
         let ncallers = 1 + g.below(4) as usize;
         let nothers = g.below(3) as usize;
-        let mut threads = vec![];
+        let mut threads: Vec<Vec<Op>> = vec![];
         for _ in 0..ncallers {
             threads.push(
                 (0..1 + g.below(5))
@@ -137,6 +140,12 @@ impl Property for C08 {
                     })
                     .collect(),
             );
+        }
+        if nl > 0 && g.chance(1, 20) {
+            let t = g.below(threads.len() as u64) as usize;
+            let at = g.below(threads[t].len() as u64 + 1) as usize;
+            threads[t].insert(at, Op::EditLookBig(g.below(nl as u64) as usize, 260 + g.below(80) as usize));
+            threads[t].insert(at + 1, Op::HotReload);
         }
         let preload = (0..nl).filter(|_| g.chance(3, 4)).collect();
         (knobs, serde_json::to_value(Work { looks, preload, threads }).unwrap())
@@ -212,6 +221,11 @@ fn scenario(w: Work, nt: Shared<bool>) {
     for (i, peers) in w.looks.iter().enumerate() {
         tree.put(&format!("q{i}"), "lk", lk_text(peers).as_bytes());
     }
+    if w.threads.iter().flatten().any(|o| matches!(o, Op::EditLookBig(..))) {
+        for j in 0..340 {
+            tree.put(&format!("big{j}"), "a", b"big");
+        }
+    }
     let src = SimSource::new(tree, HotMode::Custom, 1);
     let cache = AssetCache::with_source(src.clone());
     // preload in two rounds so that mutual look-ups see each other
@@ -269,6 +283,12 @@ fn scenario(w: Work, nt: Shared<bool>) {
                             }
                             Op::NotifyLook(i) => {
                                 src.notify(file_entry(&format!("q{i}"), "lk"));
+                            }
+                            Op::EditLookBig(i, n) => {
+                                let text = (0..*n).map(|j| format!("leaf:big{j}")).collect::<Vec<_>>().join(" ");
+                                src.tree(|tr| tr.put(&format!("q{i}"), "lk", text.as_bytes()));
+                                src.notify(file_entry(&format!("q{i}"), "lk"));
+                                detsim::count("reach.reload_loading_hundreds_of_new_assets");
                             }
                             Op::DropSender => {
                                 src.drop_sender();
